@@ -825,6 +825,10 @@ MUTATORS = {
     'unregister-unrelated-extendor': lambda w: w.reg.unregister([w.X], w.PA, ''),
 }
 SPEC_MUTATORS = ('classImplements', 'rebase-interface')
+# thorough tier: two pre-emptions for the mutators that change the registry or
+# its chain; one for the others (the full set at bound 2 takes several hours)
+DEEP_MUTATORS = ('register', 'unregister', 'subscribe', 'unsubscribe', 'register-in-base',
+                 'rebase-registry')
 EXT_MUTATORS = ('unregister-unrelated-extendor',)     # run in the world with [P, PA, PB]
 OPCODE_LEVEL = ('changed', 'register', 'unregister', 'subscribe', 'unsubscribe', '_setBases',
                 '_subscribe', '_uncached_lookup', '_uncached_subscriptions', '_lookup',
@@ -1209,7 +1213,7 @@ def run(ctx):
                     if (mut == 'unregister-unrelated-extendor') != (e in ('lookup-e', 'subscriptions', 'lookupAll')) \
                             and (mut == 'unregister-unrelated-extendor' or e == 'lookup-e'):
                         continue      # the extendors walk: only these pairings add anything
-                    if quick:
+                    if quick or mut not in DEEP_MUTATORS:
                         add(flavour, mut, [e], 1)
                     else:
                         add(flavour, mut, [e], 2, True)
